@@ -14,6 +14,14 @@ package state
 //@   ensures err == ErrNotFound ==> !haskey(pinset, c)
 //@   modifies nothing
 
+// the listing: one entry per CID of the pinset, each the stored pin
+//@ interface ReadOnly.List(ctx)
+//@   ensures err != nil ==> res == nil
+//@   ensures err == nil ==> forall i int :: 0 <= i && i < len(res) ==> res[i] != nil && fresh(res[i]) && haskey(pinset, res[i].Cid) && *res[i] == pinset[res[i].Cid]
+//@   ensures err == nil ==> forall i int, j int :: 0 <= i && i < j && j < len(res) ==> res[i].Cid != res[j].Cid
+//@   ensures err == nil ==> forall c cid.Cid :: haskey(pinset, c) ==> exists i int :: 0 <= i && i < len(res) && res[i].Cid == c
+//@   modifies nothing
+
 // the write side of the state, over the same abstract pinset (dsstate implements it over a datastore, see dsstate contracts)
 //@ interface WriteOnly.Add(ctx, pin)
 //@   ensures err == nil ==> haskey(pinset, pin.Cid) && pinset[pin.Cid] == *pin
